@@ -27,6 +27,22 @@ the empty string, `~` is Python `None`).  Lines:
 Values are tokens: the arguments of a call are 0..nargs-1, a single return value is 100, the
 elements of a returned sequence are 0..n-1 and the sequence taken as one value is 1000.
 
+Histories with org.freedesktop.DBus.Properties calls (composition with C17's model,
+`TxdbusModel.Obj.DispatchProps`; values are real values, not tokens):
+
+  preset                                  forget the Properties scenario                       -> ok
+  pclass | piface .. | pdesc .. | pbind   the class chain, as Driver/C17.lean reads it         -> ok | typeerror | declerr
+  pbase                                   `DBusObject` as the generated table describes it     -> its class tokens
+  pexport <o> <path> <nclasses> {class}   exportObject of instance <o> (classes of its __mro__ BELOW DBusObject, as in
+                                          `export`; the driver appends `baseClass`)            -> done | raised
+  punexport <path>                        unexportObject                                       -> none
+  passign <o> <attr> <val>                local assignment (C17's `assign`)                    -> C17's outputs
+  pcall <path> <iface|~> <member> <sig|~> <sender|~> <serial> <expectReply 0|1> <managedEnc> <nargs> {<arg>}
+        <arg> := s<hex> | v<val> | o<n>   (values as in Driver/C17.lean)                       -> signals and messages
+  Messages of a pcall:  sig .. (C17's vocabulary) | ret <serial> <dest|~> <sig|~> <empty|xml|managed|nobody|v <sig> <val>|
+  d <n> {<key> <sig> <val>}> | err <name> <serial> <dest|~> <text> | errv <serial> <dest|~> (an exception Python raised on a
+  bad value: name and text are not the model's) | inv .. (user functions only)
+
 Events (joined by ` | `, `none` when there are none):
   inv <funcId> <nargs> <caller: - (not passed) | ~ (None) | hex>
   ret <replySerial> <dest|~> <sig|~> <empty | xml | managed | vals:<ids joined by ,>>
@@ -34,6 +50,7 @@ Events (joined by ` | `, `none` when there are none):
 -/
 import Driver.Common
 import TxdbusModel.Obj.Dispatch
+import TxdbusModel.Obj.DispatchProps
 
 open Txdbus.Obj.Dispatch
 
@@ -161,8 +178,18 @@ def mkEnv (nm : List (Str × Bool)) (r : Option Result) (managed : Option Exc :=
     validErr := fun n => (dictGet nm n).getD false
     textFix := fixSource }
 
+/-- The scenario with Properties calls: the dispatcher over real values + C17's declarations and state. -/
+structure PSt where
+  disp : State := State.init []
+  classes : List Txdbus.Obj.Props.ClassDef := []      -- reversed: current class is the head
+  bad : Bool := false
+  world : Option Txdbus.Obj.Props.World := none
+  pst : Txdbus.Obj.Props.St := Txdbus.Obj.Props.St.init
+  inst : List (Str × Nat) := []                       -- path -> instance exported there last
+
 structure St where
   st : State := State.init []
+  p : PSt := {}
 
 def showOpt : Option Str → String
   | none => "~"
@@ -232,6 +259,246 @@ def finish {α : Type} (p : P α) (ts : List String) : Option α :=
 
 def quietEnv : Env Nat := mkEnv [] none
 
+/-! ### Histories with Properties calls -/
+
+namespace P17
+
+open Txdbus.Obj Txdbus.Obj.DispatchProps
+
+def parseInt? (s : String) : Option Int :=
+  match s.toList with
+  | '-' :: t => (String.ofList t).toNat?.map fun n => -(Int.ofNat n)
+  | _ => s.toNat?.map Int.ofNat
+
+def parseScalar? (s : String) : Option Props.Scalar :=
+  match s.toList with
+  | ['B', '0'] => some (.bool false)
+  | ['B', '1'] => some (.bool true)
+  | 'I' :: t => (parseInt? (String.ofList t)).map .int
+  | 'D' :: t => (String.ofList t).toNat?.map .dbl
+  | 'S' :: t => (Driver.hexToChars? (String.ofList t)).map .str
+  | _ => none
+
+def splitNonEmpty (s : String) (sep : String) : List String :=
+  if s.isEmpty then [] else s.splitOn sep
+
+def parseVal? (s : String) : Option PVal :=
+  match s.toList with
+  | ['N'] => some .none
+  | ['B', '0'] => some (.bool false)
+  | ['B', '1'] => some (.bool true)
+  | 'I' :: t => (parseInt? (String.ofList t)).map .int
+  | 'D' :: t => (String.ofList t).toNat?.map .dbl
+  | 'S' :: t => (Driver.hexToChars? (String.ofList t)).map .str
+  | 'L' :: ':' :: t =>
+    if t.isEmpty then some (.strs [])
+    else (((String.ofList t).splitOn ",").mapM Driver.hexToChars?).map .strs
+  | 'W' :: c :: 'I' :: t => (parseInt? (String.ofList t)).map (.wint c)
+  | 'W' :: c :: 'S' :: t => (Driver.hexToChars? (String.ofList t)).map (.wstr c)
+  | 'X' :: ':' :: t => ((splitNonEmpty (String.ofList t) ",").mapM parseScalar?).map .list
+  | 'T' :: ':' :: t => ((splitNonEmpty (String.ofList t) ",").mapM parseScalar?).map .tuple
+  | 'K' :: ':' :: t =>
+    ((splitNonEmpty (String.ofList t) ",").mapM fun (e : String) =>
+      match e.splitOn "=" with
+      | [k, v] => do
+        let k ← Driver.hexToChars? k
+        let v ← parseScalar? v
+        pure (k, v)
+      | _ => none).map .dict
+  | 'Y' :: ':' :: t =>
+    ((splitNonEmpty (String.ofList t) ";").mapM fun (e : String) =>
+      if e == "_" then some [] else (e.splitOn ",").mapM Driver.hexToChars?).map .lists
+  | _ => none
+
+def showInt (n : Int) : String := if n < 0 then "-" ++ toString n.natAbs else toString n.natAbs
+
+def showScalar : Props.Scalar → String
+  | .int n => "I" ++ showInt n
+  | .bool b => if b then "B1" else "B0"
+  | .str s => "S" ++ Driver.charsToHex s
+  | .dbl b => "D" ++ toString b
+
+def showVal : PVal → String
+  | .none => "N"
+  | .int n => "I" ++ showInt n
+  | .bool b => if b then "B1" else "B0"
+  | .str s => "S" ++ Driver.charsToHex s
+  | .dbl b => "D" ++ toString b
+  | .strs l => "L:" ++ ",".intercalate (l.map Driver.charsToHex)
+  | .wint c n => "W" ++ String.singleton c ++ "I" ++ showInt n
+  | .wstr c s => "W" ++ String.singleton c ++ "S" ++ Driver.charsToHex s
+  | .list l => "X:" ++ ",".intercalate (l.map showScalar)
+  | .tuple l => "T:" ++ ",".intercalate (l.map showScalar)
+  | .dict l => "K:" ++ ",".intercalate (l.map fun e => Driver.charsToHex e.1 ++ "=" ++ showScalar e.2)
+  | .lists l => "Y:" ++ ";".intercalate (l.map fun x =>
+      if x.isEmpty then "_" else ",".intercalate (x.map Driver.charsToHex))
+
+def showErr : Props.ErrCat → String
+  | .unknownObject => "unknownObject" | .unknownProp => "unknownProp" | .notReadable => "notReadable"
+  | .notWritable => "notWritable" | .unknownIface => "unknownIface" | .value => "value" | .noAttr => "noAttr"
+
+def showOut : Props.Out → String
+  | .ret => "ret"
+  | .retV s w => s!"retv {Driver.charsToHex s} {showVal w}"
+  | .retD l => s!"retd {l.length}" ++ String.join (l.map fun e =>
+      s!" {Driver.charsToHex e.1} {Driver.charsToHex e.2.1} {showVal e.2.2}")
+  | .err e => "err " ++ showErr e
+  | .signal o i p s w => s!"sig {o} {Driver.charsToHex i} {Driver.charsToHex p} {Driver.charsToHex s} {showVal w}"
+  | .raised => "raised"
+  | .done => "done"
+
+def parseProps : List String → Option (List Props.RawProp)
+  | [] => some []
+  | n :: s :: r :: w :: e :: rest => do
+    let n ← Driver.hexToChars? n
+    let s ← Driver.hexToChars? s
+    let r ← (if r == "1" then some true else if r == "0" then some false else none)
+    let w ← (if w == "1" then some true else if w == "0" then some false else none)
+    let e ← (match e with
+      | "t" => some Props.EmitsArg.true_ | "f" => some Props.EmitsArg.false_
+      | "i" => some Props.EmitsArg.invalidates | "c" => some Props.EmitsArg.const | _ => none)
+    let tl ← parseProps rest
+    pure (⟨n, s, r, w, e⟩ :: tl)
+  | _ => none
+
+/-- the exception Python raises on a bad value, as far as the model goes: a class that is not `Exception` -/
+def vexc : Exc := { cls := "ValueError".toList, errName := none, text := [] }
+
+def vexcName : Str := pyExceptionPrefix ++ vexc.cls
+
+def pvArg (t : String) : Option PV :=
+  match t.toList with
+  | 's' :: r => (Driver.hexToChars? (String.ofList r)).map .str
+  | 'v' :: r => (parseVal? (String.ofList r)).map .val
+  | 'o' :: r => (String.ofList r).toNat?.map .other
+  | _ => none
+
+def showPBody : Body PV → String
+  | .empty => "empty"
+  | .xml _ => "xml"
+  | .managed _ => "managed"
+  | .vals [.variant s w] => s!"v {Driver.charsToHex s} {showVal w}"
+  | .vals [.dict l] => s!"d {l.length}" ++ String.join (l.map fun e =>
+      s!" {Driver.charsToHex e.1} {Driver.charsToHex e.2.1} {showVal e.2.2}")
+  | .vals _ => "nobody"
+
+def showPEvent : Event PV → Option String
+  | .sent (.ret s d sg b) => some s!"ret {s} {showOpt d} {showOpt sg} {showPBody b}"
+  | .sent (.err n s d t) =>
+    if n = vexcName then some s!"errv {s} {showOpt d}"
+    else some s!"err {Driver.charsToHex n} {s} {showOpt d} {Driver.charsToHex t}"
+  | .invoked f args caller =>
+    if f ≥ 10000 then none else
+    let c := match caller with
+      | none => "-"
+      | some o => showOpt o
+    some s!"inv {f} {args.length} {c}"
+
+def showMethodToks (m : Str × Method) : List String :=
+  [Driver.charsToHex m.1, Driver.charsToHex m.2.sigIn, Driver.charsToHex m.2.sigOut, toString m.2.nret]
+
+def showClassToks (c : Class) : List String :=
+  let ifs := c.ifaces.getD []
+  [if c.ifaces.isSome then "1" else "0", toString ifs.length] ++
+    ifs.flatMap (fun i => [Driver.charsToHex i.name, toString i.methods.length] ++ i.methods.flatMap showMethodToks) ++
+    [toString c.attrs.length] ++
+    c.attrs.flatMap (fun a =>
+      [Driver.charsToHex a.1, toString a.2.id] ++
+      (match a.2.deco with
+       | some (i, m) => ["1", Driver.charsToHex i, Driver.charsToHex m]
+       | none => ["0"]) ++
+      [toString a.2.params.length] ++ a.2.params.map Driver.charsToHex)
+
+def pEnv (managed : Option Exc) : Env PV :=
+  { managedErr := fun _ => managed
+    encErr := fun _ _ => none          -- encodability of Properties results is C17's model's
+    ofSeq := fun _ => .other 1000
+    validErr := fun _ => true
+    textFix := fixSource }
+
+def parsePExport : P (Nat × Str × Obj) := do
+  let o ← nat
+  let path ← str
+  let n ← nat
+  let cs ← rep cls n
+  pure (o, path, { classes := cs ++ [baseClass] })
+
+def parsePCall : P (Option Exc × Call PV) := do
+  let path ← str
+  let ifc ← optStr
+  let member ← str
+  let sig ← optStr
+  let sender ← optStr
+  let serial ← nat
+  let er ← bool
+  let me ← enc
+  let nargs ← nat
+  let args ← rep (do let t ← tok; match pvArg t with | some a => pure a | none => failure) nargs
+  pure (me, { path, iface := ifc, member, sig, sender, serial, expectReply := er, body := args })
+
+def runC17 (d : PSt) (op : Props.Op) : PSt × List Props.Out :=
+  match d.world with
+  | none => (d, [])
+  | some W =>
+    let r := Props.step Props.Cfg.repaired W d.pst op
+    ({ d with pst := r.1 }, r.2)
+
+def stepLine (d : PSt) (ws : List String) : PSt × String :=
+  match ws with
+  | ["preset"] => ({}, "ok")
+  | ["pclass"] => ({ d with classes := ⟨[], []⟩ :: d.classes }, "ok")
+  | "piface" :: name :: rest =>
+    match d.classes, Driver.hexToChars? name, parseProps rest with
+    | c :: cs, some name, some raw =>
+      match Props.mkIface name raw with
+      | some f => ({ d with classes := { c with ifaces := c.ifaces ++ [f] } :: cs }, "ok")
+      | none => ({ d with bad := true }, "typeerror")
+    | _, _, _ => (d, "parse-error")
+  | ["pdesc", a, p, i] =>
+    match d.classes, Driver.hexToChars? a, Driver.hexToChars? p with
+    | c :: cs, some a, some p =>
+      let i? : Option (Option Str) := if i == "~" then some none else (Driver.hexToChars? i).map some
+      match i? with
+      | some i => ({ d with classes := { c with descs := c.descs ++ [⟨a, p, i⟩] } :: cs }, "ok")
+      | none => (d, "parse-error")
+    | _, _, _ => (d, "parse-error")
+  | ["pbind"] =>
+    if d.bad then (d, "declerr") else
+    match Props.elaborate d.classes.reverse with
+    | some W => ({ d with world := some W, pst := Props.St.init }, "ok")
+    | none => (d, "declerr")
+  | ["pbase"] => (d, " ".intercalate (showClassToks baseClass))
+  | "pexport" :: ts =>
+    match finish parsePExport ts with
+    | some (o, path, obj) =>
+      let r := runC17 d (.export o)
+      if r.2 = [.done] then
+        ({ r.1 with disp := (step (pEnv none) r.1.disp (.exportObj path obj)).1,
+                    inst := dictSet r.1.inst path o }, "done")
+      else ({ r.1 with disp := { r.1.disp with next := r.1.disp.next + 1 } }, "raised")
+    | none => (d, "parse-error")
+  | ["punexport", p] =>
+    match Driver.hexToChars? p with
+    | some path => ({ d with disp := (step (pEnv none) d.disp (.unexportObj path)).1 }, "none")
+    | none => (d, "parse-error")
+  | ["passign", o, a, v] =>
+    match o.toNat?, Driver.hexToChars? a, parseVal? v with
+    | some o, some a, some v =>
+      let r := runC17 d (.assign o a v)
+      (r.1, " | ".intercalate (r.2.map showOut))
+    | _, _, _ => (d, "parse-error")
+  | "pcall" :: ts =>
+    match finish parsePCall ts, d.world with
+    | some (me, c), some W =>
+      let L : Lib := { cfg := Props.Cfg.repaired, W := W, o := (dictGet d.inst c.path).getD 0, vexc := vexc }
+      let r := callStep (pEnv me) L d.disp d.pst c (fun _ => .value (.single (.other 100)))
+      let msgs := r.2.2.2.map showOut ++ r.2.2.1.filterMap (fun e => showPEvent e.2)
+      ({ d with disp := r.1, pst := r.2.1 }, if msgs.isEmpty then "none" else " | ".intercalate msgs)
+    | _, _ => (d, "parse-error")
+  | _ => (d, "parse-error")
+
+end P17
+
 def stepLine (s : St) (line : String) : St × String :=
   match Driver.words line with
   | ["reset"] => ({}, "ok")
@@ -259,6 +526,11 @@ def stepLine (s : St) (line : String) : St × String :=
       let r := step env s.st op
       ({ st := r.1 }, showEvents r.2)
     | none => (s, "parse-error")
+  | w :: ts =>
+    if w.startsWith "p" then
+      let r := P17.stepLine s.p (w :: ts)
+      ({ s with p := r.1 }, r.2)
+    else (s, "parse-error")
   | _ => (s, "parse-error")
 
 end Driver.C10
